@@ -1,5 +1,5 @@
 """C08 - a parse depends only on its own input, not on earlier parses (DESIGN.md 7/C08)."""
-import itertools, json, os, time
+import zlib, itertools, json, os, time
 from vlib import core, schema
 from vlib.core import hx, unhx, Verdict, F_LIST, F_MULTI, F_TITLE
 from vlib.schema import D
@@ -49,6 +49,11 @@ EVENTS = {
     'file-open-comment': ['parse_file 0 %s' % hx('opencomment.conf')],
     'fp-open-sq': ['parse_fp 0 %s' % hx("s = 'abc")],
     'eof-in-list': ['parse_buf 0 %s' % hx('l = {1, 2')],
+    # rejected between the '=' of a list and its first accepted value: nothing was stored
+    'eof-after-eq': ['parse_buf 0 %s' % hx('l =')],
+    'stray-after-eq': ['parse_buf 0 %s' % hx('l = }')],
+    'range-first-value': ['parse_buf 0 %s' % hx('l = 99999999999999999999\n')],
+    'range-first-braced': ['parse_buf 0 %s' % hx('l = {99999999999999999999, 1}\n')],
     'fp-fail-in-include-1': ['parse_fp 0 %s' % hx('include("bad.conf")\ni = 12\n')],
     'fp-fail-in-include-3': ['parse_fp 0 %s' % hx('i = 1\ninclude("n1.conf")\n')],
     'file-fail-in-include-3': ['parse_file 0 %s' % hx('incbad.conf')],
@@ -59,7 +64,12 @@ EVENTS = {
     'eof-in-call-args': ['parse_buf 0 %s' % hx('include("good.conf", "x"')],
 }
 QUICK_EVENTS = ['bare-open-dq', 'bare-open-comment', 'eof-in-call-args', 'ok', 'open-dq', 'open-sq', 'open-comment', 'bad-escape', 'fail-in-include-1', 'fail-in-include-3', 'self-include', 'int-range',
-                'float-range', 'missing-include', 'reinit', 'second', 'eof-in-section', 'file-open-dq', 'eof-in-list', 'fp-fail-in-include-1', 'fp-fail-in-include-3', 'file-fail-in-include-3']
+                'float-range', 'missing-include', 'reinit', 'second', 'eof-in-section', 'file-open-dq', 'eof-in-list', 'fp-fail-in-include-1', 'fp-fail-in-include-3', 'file-fail-in-include-3', 'eof-after-eq', 'range-first-value']
+
+# events that are rejected before anything is stored: after a history made of these alone, the history's own context must give
+# the values a fresh context gives for the same probe sequence
+NOEFFECT = {'open-dq', 'open-sq', 'bare-open-dq', 'bare-open-sq', 'int-range', 'float-range', 'missing-include', 'unknown', 'eof-after-eq', 'stray-after-eq',
+            'range-first-value', 'range-first-braced', 'bad-escape', 'bad-octal', 'fp-open-sq', 'file-open-dq'}
 
 PROBES = [
     'i = 5\n',
@@ -93,6 +103,15 @@ def probe_lines(sid, k, ctx):
     return ['note probe%d' % k, 'init? %d %d 0' % (ctx, sid), 'parse_buf %d %s' % (ctx, hx(PROBES[k])), 'dump %d' % ctx, 'mon', 'free %d' % ctx]
 
 
+def same_order(spec):
+    """order in which the probes go into the history's own context: the natural one, or appending ones first (before any probe re-assigns the lists)"""
+    n = len(PROBES)
+    if spec.get('so', 0) == 1:
+        first = [4, 5, 0]
+        return first + [k for k in range(n) if k not in first]
+    return list(range(n))
+
+
 def script(spec):
     lines, sid = schema.emit_schema(DECLS)
     lines.append('init 0 %d 0' % sid)
@@ -110,12 +129,14 @@ def script(spec):
             lines.append(l.replace('@SID', str(sid)))
     lines.append('note history-done')
     lines.append('mon')
+    # the name the context carries: a stream parsed next keeps it, so its diagnostics show it
+    lines += ['note samefp', 'initq 0 %d 0' % sid, 'parse_fp 0 %s' % hx('zz = 1\n')]
     for k in spec['probes']:
         lines += probe_lines(sid, k, 3 if (k == spec['probes'][0] and spec.get('pre', True)) else 2)
     # the same probes into the history's own context: values accumulate there by design, but whether the text is accepted
     # and what is reported must not depend on the aborted parses before it
-    for k in spec['probes']:
-        lines += ['note same%d' % k, 'initq 0 %d 0' % sid, 'parse_buf 0 %s' % hx(PROBES[k])]
+    for k in (same_order(spec) if spec['probes'] == list(range(len(PROBES))) else spec['probes']):
+        lines += ['note same%d' % k, 'initq 0 %d 0' % sid, 'parse_buf 0 %s' % hx(PROBES[k]), 'dump 0']
     return '\n'.join(lines).replace('init? ', 'initq ')
 
 
@@ -183,6 +204,37 @@ def judge(spec, events, death):
         if not r or r[0]['rc'] != want[0] or [list(x) for x in diags] != [list(x) for x in want[2]]:
             v.bad('same-context:after-%s:probe%d' % (hist[-1], k), 'history %r then probe %r into the SAME context: rc=%s diags=%r, in a fresh process rc=%s diags=%r' % (
                 hist, PROBES[k], r[0]['rc'] if r else None, diags[:2], want[0], want[2][:2]))
+    # the source name left in the history's own context: that of the last top-level source, whatever happened in its includes
+    name = None
+    for h in hist:
+        for l in EVENTS[h]:
+            w = l.split()
+            if w[0] == 'free' and w[1] == '0':
+                name = None
+            elif w[0] == 'parse_buf' and w[1] == '0':
+                name = '[buf]'
+            elif w[0] == 'parse_file' and w[1] == '0':
+                name = bytes.fromhex(w[2][1:]).decode('latin-1')
+            elif w[0] == 'parse_fp' and w[1] == '0':
+                name = name or 'FILE'
+    fpd = [unhx(e['file']) for e in g.get('samefp', []) if e.get('ev') == 'diag']
+    if fpd:
+        v.notes['context_name_checks'] = v.notes.get('context_name_checks', 0) + 1
+        if any(f != (name or 'FILE') for f in fpd):
+            v.bad('same-context-name:after-%s' % hist[-1], 'history %r: a stream parsed next into the same context reports under %r, the last top-level source was %r' % (hist, fpd[0], name or 'FILE'))
+    # values in the history's own context, when the history stored nothing
+    sf = core._W['opts'].get('same_fresh')
+    if sf and hist and all(h in NOEFFECT for h in hist) and spec['probes'] == list(range(len(PROBES))):
+        for k in same_order(spec):
+            d = [e for e in g.get('same%d' % k, []) if e.get('ev') == 'dump']
+            if not d:
+                break
+            got = json.dumps(schema.dump_values_only(d[0]['tree']), sort_keys=True)
+            v.notes['same_context_value_checks'] = v.notes.get('same_context_value_checks', 0) + 1
+            if got != sf[spec.get('so', 0)][k]:
+                v.bad('same-context-values:after-%s:probe%d' % (hist[-1], k), 'history %r (texts rejected before anything is stored) then probe %r into the SAME context: the values differ from '
+                      'those of the same probe sequence in a fresh process' % (hist, PROBES[k]))
+                break
     v.nontrivial = bool(aborted)
     return v
 
@@ -221,7 +273,9 @@ def gen(tier, seed):
     allp = list(range(len(PROBES)))
     for d in range(1, depth + 1):
         for h in itertools.product(evs, repeat=d):
-            yield {'hist': list(h), 'probes': allp, 'pre': True}
+            yield {'hist': list(h), 'probes': allp, 'pre': True, 'so': (zlib.crc32(' '.join(h).encode()) >> 3) & 1 if d > 1 else 1}
+            if d == 1:
+                yield {'hist': list(h), 'probes': allp, 'pre': True, 'so': 0}
     rng = core.seeded_rng(seed, 'c08')
     # longer random histories
     for _ in range(300 if tier == 'quick' else 6000):
@@ -270,6 +324,16 @@ def make_opts(bindirs, specs=None):
     prepare_files(cwd)
     opts = {'cwd': cwd, 'solo_timeout': 60}
     opts['fresh'] = compute_fresh(bindirs['asan'], cwd)
+    # reference for the own-context value comparison: the probe sequence after an empty history
+    opts['same_fresh'] = []
+    for so in (0, 1):
+        body = script({'hist': [], 'probes': list(range(len(PROBES))), 'pre': True, 'so': so})
+        out = core.run_batch(bindirs['asan'], [(0, body)], cwd=cwd)
+        evs, death = out[0]
+        if death is not None:
+            raise core.HarnessError('probe sequence dies in a fresh process: %s' % death['kind'])
+        g = groups_of(evs)
+        opts['same_fresh'].append([json.dumps(schema.dump_values_only([e for e in g['same%d' % k] if e.get('ev') == 'dump'][0]['tree']), sort_keys=True) for k in range(len(PROBES))])
     opts['solo'] = compute_solo(bindirs['asan'], cwd, specs or [])
     return opts
 
